@@ -287,7 +287,23 @@ def invalid_declarations():
         sd.ConsolidatedGovernment(a, 'GOV'); tick(); sd.Household(a, 'HH'); tick(); sd.TaxFlow(a, 'TF', taxrate=.2); tick(); bus = sd.FixedMarginBusiness(b, 'BUS'); tick()
         Market(b, 'LAB'); tick(); sd.Household(b, 'HH'); tick(); g = Market(a, 'GOOD'); tick(); Market(a, 'LAB'); tick(); g.AddSupplier(bus); m.MaxTime = 1; tick(); m.main()
 
-    scen = [('duplicate-country', dup_country, False), ('duplicate-sector', dup_sector, False), ('duplicate-sector-different-kinds', dup_sector_kinds, False),
+    def money_no_issuer(tick, box):
+        m = Model(); box['m'] = m; tick(); c = Country(m, 'CA'); tick(); sd.Household(c, 'HH'); tick(); sd.FixedMarginBusiness(c, 'BUS'); tick(); Market(c, 'GOOD'); tick()
+        Market(c, 'LAB'); tick(); sd.MoneyMarket(c); m.AddInitialCondition('HH', 'F', 100.); m.MaxTime = 1; tick(); m.main()
+
+    def deposit_no_issuer(tick, box):
+        m = Model(); box['m'] = m; tick(); c = Country(m, 'CA'); tick(); sd.ConsolidatedGovernment(c, 'GOV'); tick(); h = sd.Household(c, 'HH'); tick(); sd.FixedMarginBusiness(c, 'BUS'); tick()
+        sd.TaxFlow(c, 'TF', taxrate=.2); tick(); Market(c, 'GOOD'); tick(); Market(c, 'LAB'); tick(); sd.MoneyMarket(c); tick(); sd.DepositMarket(c, issuer_short_code='TRE'); tick()
+        h.GenerateAssetWeighting([('DEP', '0.5')], 'MON'); m.MaxTime = 1; tick(); m.main()
+
+    def money_two_issuers(tick, box):
+        m = Model(); box['m'] = m; tick(); f = Country(m, 'FED', currency='LOC'); tick(); o = Country(m, 'ON', currency='LOC'); tick(); sd.ConsolidatedGovernment(f, 'GOV'); tick()
+        Sector(o, 'GOV'); tick(); sd.Household(o, 'HH'); tick(); sd.FixedMarginBusiness(o, 'BUS'); tick(); sd.TaxFlow(f, 'TF', taxrate=.2); tick(); Market(o, 'GOOD'); tick(); Market(o, 'LAB'); tick()
+        sd.MoneyMarket(f); m.MaxTime = 1; tick(); m.main()
+
+    scen = [('financial-market-without-issuer:money', money_no_issuer, True), ('financial-market-without-issuer:deposits', deposit_no_issuer, True),
+            ('financial-market-with-two-issuers:money', money_two_issuers, True),
+            ('duplicate-country', dup_country, False), ('duplicate-sector', dup_sector, False), ('duplicate-sector-different-kinds', dup_sector_kinds, False),
             ('double-underscore-local-name', underscores_local, False), ('double-underscore-sector-code', underscores_code, True),
             ('market-without-supplier', no_supplier, True), ('market-with-ambiguous-suppliers', ambiguous, True),
             ('market-with-ambiguous-labour-suppliers', ambiguous_labour, True),
@@ -432,7 +448,7 @@ def run(tier, seed):
                   'contraction => success': '%d cases x = A*x + B, A in {0.8,-0.8,0.5,...}, B and x(0) symbolic in the stated box (quick: A in {-0.8, 0.5, -0.5, 0.25} with boxes +-1000/+-100; A = 0.8 needs ~130 damped sweeps and is explored in the thorough tier only), DEFAULT cap 400, tolerance >= %g, one variable'
                   % (len(ccs), min(c[1] for c in ccs)),
                   'invalid declarations': 'every keyword / builtin / math name / k / self / None as variable name and as token, with equation reduction on and off; duplicate country / sector; "__" in local '
-                  'name and sector code; market without / with ambiguous suppliers (goods and labour); cross-currency flow and cross-currency supplier without external sector; each model-level '
+                  'name and sector code; market without / with ambiguous suppliers (goods and labour); cross-currency flow and cross-currency supplier without external sector; financial asset market without / with two issuers; each model-level '
                   'scenario also with another model started / half built / built-and-solved after every one of its construction calls'}
     chk.assumptions = ['sweep count is read from the public step trace (TraceStep)', 'TimeSeriesHolder.GenerateCSVtext stubbed to "" in E2 runs']
     chk.bounds['float-only arithmetic errors'] = 'overflow of ** / exp and complex results of fractional powers, in simultaneous and decorative equations, from period 1 or 2, reduction on/off: 14 enumerated outcome checks'
